@@ -26,18 +26,27 @@ public:
   ASMJIT_INLINE_NODEBUG explicit CodeWriter(BaseAssembler* a) noexcept
     : _cursor(a->_buffer_ptr) {}
 
+  //! Makes sure that at least `n` bytes can be written, growing the buffer if necessary. A failure is only returned,
+  //! not reported - this is used by `_emit()`, which reports every failure of the instruction at a single place after
+  //! it has reset the one-shot instruction state.
+  [[nodiscard]]
+  ASMJIT_INLINE Error try_ensure_space(BaseAssembler* a, size_t n) noexcept {
+    size_t remaining_space = (size_t)(a->_buffer_end - _cursor);
+    if (ASMJIT_UNLIKELY(remaining_space < n)) {
+      CodeBuffer& buffer = a->_section->_buffer;
+      ASMJIT_PROPAGATE(a->_code->grow_buffer(&buffer, n));
+      _cursor = a->_buffer_ptr;
+    }
+    return Error::kOk;
+  }
+
   //! \note Not `noexcept` - a failure is reported through `BaseEmitter::report_error()`, which calls the attached
   //! `ErrorHandler`, and `ErrorHandler::handle_error()` is allowed to throw.
   [[nodiscard]]
   ASMJIT_INLINE Error ensure_space(BaseAssembler* a, size_t n) {
-    size_t remaining_space = (size_t)(a->_buffer_end - _cursor);
-    if (ASMJIT_UNLIKELY(remaining_space < n)) {
-      CodeBuffer& buffer = a->_section->_buffer;
-      Error err = a->_code->grow_buffer(&buffer, n);
-      if (ASMJIT_UNLIKELY(err != Error::kOk)) {
-        return a->report_error(err);
-      }
-      _cursor = a->_buffer_ptr;
+    Error err = try_ensure_space(a, n);
+    if (ASMJIT_UNLIKELY(err != Error::kOk)) {
+      return a->report_error(err);
     }
     return Error::kOk;
   }
